@@ -73,6 +73,7 @@ func one(r *ev.Run, env *rt.Env, p progen.Program, c *counters, verbose bool) {
 	tr := &bcflow.Tracer{Heights: res.Heights}
 	env.OnVM = func(mach *vm.VirtualMachine) { bcflow.Attach(mach, tr) }
 	out := env.RunCode(code, nil, 10*time.Second)
+	out.Release()
 	env.OnVM = nil
 	if out.VM != nil {
 		bcflow.Detach(out.VM)
@@ -112,6 +113,7 @@ func Check(r *ev.Run, replay string) {
 			tr := &bcflow.Tracer{Heights: res.Heights}
 			env.OnVM = func(mach *vm.VirtualMachine) { bcflow.Attach(mach, tr) }
 			out := env.RunCode(code, nil, 10*time.Second)
+			out.Release()
 			fmt.Printf("run: stage=%s value=%s err=%q steps=%d mismatches=%v final sp=%d\n", out.Stage, out.Val, out.ErrText, tr.Steps, tr.Mismatch, out.VM.VerifSP())
 			for _, pr := range res.Problems {
 				r.Report("static:"+pr.Kind, pr.Text, in, pr.Text, "")
